@@ -77,6 +77,18 @@ def render_interrupted(results, fmt, via, lang, after):
     return ('interrupted', after) if hit else value
 
 
+def render_with_stack_budget(results, fmt, via, lang, extra):
+    """F11: the rendering runs with `extra` frames of stack left.  returns ('exhausted', extra) when RecursionError
+    came out, else the rendering's result (which then has to be the complete, ordinary one)"""
+    from depsim import faults
+    hit, value = faults.run_with_stack_budget(lambda: render(results, fmt, via, lang), extra)
+    if hit or value[0] == 'exc':
+        # an exception of any type is a legitimate way out of an exhausted stack; only a rendering that claims
+        # success is compared with the reference
+        return ('exhausted', extra)
+    return value
+
+
 class ReferenceRenderer(object):
     """the stateless reference model: a process forked BEFORE the first operation of the history (it
     holds the pristine results and pristine module state of the printers) that answers each request
@@ -206,6 +218,11 @@ class C18(ParserSessionProp):
             for h in hist:
                 if h['op'] == 'render' and h['via'] == 'to_string' and prng.random() < 0.6:
                     h['via'] = prng.choice(['print', 'print:file', 'print:file_end', 'print:end', 'print:sep_flush'])
+        # F11: one rendering of every fifth history runs with only a few frames of stack left
+        srng = gen.stream(seed, 'C18:stack', index)
+        renders_ = [h for h in hist if h['op'] == 'render']
+        if renders_ and srng.random() < 0.2:
+            srng.choice(renders_)['stack_budget'] = srng.choice([6, 8, 10, 12, 15, 18, 22, 26, 30, 35, 40, 50, 60, 80])
         # F10: one rendering of every fourth history is pre-empted at an arbitrary instant (Ctrl-C, timeout signal)
         irng = gen.stream(seed, 'C18:interrupt', index)
         renders = [h for h in hist if h['op'] == 'render']
@@ -263,7 +280,25 @@ class C18(ParserSessionProp):
                 continue
             bump(stats, 'evaluations')
             bump(stats, 'render:' + h['format'])
-            if h.get('interrupt_after'):
+            if h.get('stack_budget') and not h.get('interrupt_after'):
+                got = render_with_stack_budget(results, h['format'], h['via'], lang, h['stack_budget'])
+                if got[0] == 'exhausted':
+                    bump(stats, 'fault:F11_rendering_hit_the_stack_limit')
+                    log.append((h['format'], 'exhausted', h['stack_budget']))
+                    if snapshot(results) != snap0:
+                        v = Violation(oracle='state_unchanged',
+                                      message=(f'operation #{hi} render({h["format"]}, via {h["via"]}, lang {lang}) hit the stack limit '
+                                               f'({h["stack_budget"]} frames) and left the shared result objects changed: '
+                                               f'{_first_diff(snap0, snapshot(results))}'),
+                                      signature={'format': h['format'], 'fault': 'F11'})
+                        v['property'] = self.id
+                        v['op_index'] = hi
+                        result['violations'].append(v)
+                        break
+                    interrupted_before = True
+                    continue
+                bump(stats, 'renderings_completed_under_a_stack_budget')
+            elif h.get('interrupt_after'):
                 got = render_interrupted(results, h['format'], h['via'], lang, h['interrupt_after'])
                 if got[0] == 'interrupted':
                     # nothing to compare the torn output with; the objects must be untouched and every later
